@@ -10,11 +10,3 @@ func (x *Exec) stringToRunes(st *State, s StrVal) Val {
 	x.fail("[]rune(string) not modelled yet")
 	return nil
 }
-func (x *Exec) rangeInit(st *State, t *ssa.Range) Val {
-	x.fail("range over string/map not modelled yet")
-	return nil
-}
-func (x *Exec) rangeNext(st *State, t *ssa.Next) Val {
-	x.fail("range over string/map not modelled yet")
-	return nil
-}
